@@ -9,7 +9,8 @@ Parts (DESIGN.md section 6, C06):
       emit      Model.emit  vs  the request document Spyne writes for a conformant value,
       soft      Model.soft  vs  the verdict of the real pipeline with validator='soft',
       leaf      decimal writer/reader, xs:decimal / xs:integer lexical mappings vs decimal / lxml;
-  * direct oracle on the real implementation: the schema compiles; every request and response
+  * direct oracle on the real implementation: the schema compiles (and imports every namespace it
+    refers to, one universe per kind of cross-namespace reference); every request and response
     document Spyne emits for conformant values validates (lxml) against it; for documents in
     declared order the lxml and soft verdicts coincide wherever only constraints that both
     implement are at stake (XmlDocument, Soap11, Soap12)."""
@@ -411,6 +412,27 @@ def doc_texts(e):
 
 
 # ------------------------------------------------------------------ one universe: build everything
+def import_gaps(schema_docs):
+    """[(target namespace, referenced namespace)]: QName references (type / base / ref) of a schema
+    document to a namespace it neither targets nor imports (XSD part 1, 4.2.3: such a reference
+    does not resolve, whatever a lenient processor makes of it)"""
+    out = []
+    for root in schema_docs.values():
+        tn = root.get('targetNamespace')
+        imported = set(ch.get('namespace') for ch in root if ch.tag == _xs('import'))
+        for el in root.iter():
+            if not isinstance(el.tag, str):
+                continue
+            for a in ('type', 'base', 'ref', 'itemType'):
+                q = el.get(a)
+                if q is None or ':' not in q:
+                    continue
+                ns = el.nsmap.get(q.split(':', 1)[0])
+                if ns not in (tn, XSD_NS) and ns not in imported and (tn, ns) not in out:
+                    out.append((tn, ns))
+    return out
+
+
 class World(object):
     """a generated universe rendered as real Spyne applications and as Gallina terms"""
 
@@ -431,6 +453,9 @@ class World(object):
         xs = XmlSchema(self.app_s.interface)
         xs.build_interface_document()
         self.schema_docs = xs.get_interface_document()
+        gaps = import_gaps(self.schema_docs)
+        if gaps and not self.compile_error:
+            self.compile_error = 'missing xs:import: the schema of %r refers to %r without importing it' % gaps[0]
 
     def request(self, cid, v):
         o = G.to_native(self.desc, self.classes, v)
@@ -445,9 +470,12 @@ class World(object):
 PROVED_BASES = G.INT_BASES + ['string', 'string', 'string', 'anyURI', 'boolean', 'boolean']
 
 
-def gen_desc(rng, tier, ui, proved_only=False):
+def gen_desc(rng, tier, ui, proved_only=False, wide=False):
+    """wide: with named simple types (type_name / __namespace__), members that customise them a
+    second time, and the hex / urlsafe encodings of ByteArray -- the direct oracle only (the Gallina
+    universe has no named simple types)"""
     return G.gen_universe(rng, n_classes=rng.randint(1, 5), namespaces=('urn:t', 'urn:u') if ui % 2 else ('urn:t',),
-                          bases=PROVED_BASES if proved_only else None)
+                          bases=PROVED_BASES if proved_only else None, named=wide and ui % 3 != 0, extra=wide)
 
 
 def attr_clash(desc, cid, elt):
@@ -711,6 +739,8 @@ def corr_decimal_text(check, tier):
 
 
 def compile_shape(msg):
+    if re.search(r"\[facet '(min|max)Exclusive'\] The value '([^']*)' must be (greater|less) than '\2'", msg):
+        return 'inherited-exclusive-bound'
     m = re.search(r"Element '\{[^}]*\}(\w+)'.*?atomic type '([\w:]+)'", msg)
     if m:
         return 'facet-value|%s|%s' % (m.group(1), m.group(2))
@@ -740,6 +770,69 @@ def nil_missing_attr(msg):
     return msg is not None and 'is required but missing' in msg
 
 
+def byte_leaves(desc, ty, v, out):
+    """[(base, bytes)] of the ByteArray leaves of a neutral value of declared type ty"""
+    if v[0] == 'none':
+        return
+    if ty[0] == 'leaf':
+        if v[0] in ('bytes', 'chunks'):
+            out.append((ty[1]['base'], G.denoted_bytes(v)))
+    elif v[0] == 'list':
+        for x in v[1]:
+            byte_leaves(desc, ty[1] if ty[0] == 'arr' else ty, x, out)
+    elif v[0] == 'obj':
+        for (_, f), x in zip(G.flat_fields(desc, v[1]), v[2]):
+            if x[0] == 'list' and f['ty'][0] != 'arr':
+                for y in x[1]:
+                    byte_leaves(desc, f['ty'], y, out)
+            else:
+                byte_leaves(desc, f['ty'], x, out)
+
+
+_RE_B64_STRICT = re.compile(r'^(?:[A-Za-z0-9+/]{4})*(?:[A-Za-z0-9+/][AQgw]==|[A-Za-z0-9+/]{2}[AEIMQUYcgkosw048]=)?$')
+_RE_HEX = re.compile(r'^(?:[0-9a-fA-F]{2})*$')
+
+
+def strict_decode(base, t):
+    """the bytes a text denotes under the declared encoding, read strictly (RFC 4648: padding only
+    at the end, no stray characters); None when the text is not such an encoding"""
+    import base64
+    if base == 'hexBinary':
+        return bytes.fromhex(t) if _RE_HEX.match(t) else None
+    if base == 'urlsafeBinary':
+        if '+' in t or '/' in t:
+            return None
+        t = t.replace('-', '+').replace('_', '/')
+    if not _RE_B64_STRICT.match(t):
+        return None
+    return base64.b64decode(t, validate=True)
+
+
+def denotation_gap(desc, cid, v, elt):
+    """the first ByteArray leaf of the value that no text of the written document denotes"""
+    want = []
+    byte_leaves(desc, ['ref', cid], v, want)
+    if not want:
+        return None
+    texts = [t for t in doc_texts(elt) if t is not None]
+    for base, b in want:
+        for i, t in enumerate(texts):
+            if strict_decode(base, t.strip()) == b:
+                del texts[i]
+                break
+        else:
+            return base, b
+    return None
+
+
+def check_denotation(check, W, cid, v, elt, which, raw, rp):
+    gap = denotation_gap(W.desc, cid, v, elt)
+    if gap is not None:
+        check.fail('C06|emitted-denotation|%s|%s' % (which, gap[0]),
+                   'no text of the %s Spyne wrote is the %s encoding of the ByteArray value %r (%s): %s'
+                   % (which, gap[0], gap[1], W.proto, raw.decode('utf8', 'replace')[:300]), dict(rp, which=which))
+
+
 def oracle_emitted(check, W, ui, cid, v, tag=''):
     """(b): the request and the response Spyne writes for a conformant value validate against the
     schema it publishes; (c) on the same documents: soft validation accepts what lxml accepts"""
@@ -766,6 +859,7 @@ def oracle_emitted(check, W, ui, cid, v, tag=''):
             key = 'C06|emitted-invalid|request|' + (tag or norm_msg(msg))
         check.fail(key, 'the request Spyne writes for a conformant value is rejected by the schema it publishes (%s): %s -> %s'
                    % (proto, req.decode('utf8', 'replace')[:300], msg), dict(rp, which='request'))
+    check_denotation(check, W, cid, v, p, 'request', req, rp)
     lv = verdict(W.app_l, req)
     sv = verdict(W.app_s, req)
     if accepted(lv) != accepted(sv) and not region:
@@ -793,6 +887,7 @@ def oracle_emitted(check, W, ui, cid, v, tag=''):
             key = 'C06|emitted-invalid|response|' + (tag or norm_msg(msg))
         check.fail(key, 'the response Spyne writes for a conformant value is rejected by the schema it publishes (%s): %s -> %s'
                    % (proto, out.decode('utf8', 'replace')[:300], msg), dict(rp, which='response'))
+    check_denotation(check, W, cid, v, pr, 'response', out, rp)
 
 
 def leaf_shape(desc, cid, v):
@@ -834,18 +929,20 @@ def oracle_verdicts(check, W, ui, cid, body, notes, what='generated'):
                            % ('accept' if accepted(lv) else 'reject', 'valid' if want else 'invalid', ','.join(notes), body.decode('utf8')[:400]))
 
 
-def oracle_universe(check, ui, tier, desc=None, proto=None, tag=''):
+def oracle_universe(check, ui, tier, desc=None, proto=None, tag='', per_class=None, where=''):
     from lxml import etree
     rng = check.rng
     proto = proto or ('xml', 'soap11', 'soap12')[ui % 3]
-    desc = desc or gen_desc(rng, tier, ui)
+    desc = desc or gen_desc(rng, tier, ui, wide=True)
     W = World(rng, desc, proto)
     if W.compile_error:
-        check.fail('C06|compile|' + (tag or compile_shape(W.compile_error)),
-                   'the schema Spyne generates does not compile: ' + W.compile_error, {'kind': 'compile', 'proto': proto, 'universe': desc})
+        shape = compile_shape(W.compile_error)
+        check.fail('C06|compile|' + (tag or (shape if shape == 'inherited-exclusive-bound' or not where else where + '|' + shape)),
+                   'the schema Spyne generates does not compile%s: %s' % (' (%s)' % where if where else '', W.compile_error),
+                   {'kind': 'compile', 'proto': proto, 'universe': desc})
         return
-    per_class = 4 if tier == 'quick' else 10
-    for cid in range(len(W.classes)):
+    per_class = per_class or (4 if tier == 'quick' else 10)
+    for cid in desc.get('methods', range(len(W.classes))):
         for _ in range(per_class):
             try:
                 v = G.gen_conformant(rng, desc, ['ref', cid], depth=rng.randint(1, 3), nullable=False)
@@ -890,6 +987,12 @@ def corpus():
                                         'fields': [fld('a', leaf('integer'), choice='g'), fld('b', leaf('string')),
                                                    fld('c', leaf('integer'), choice='g')]}]}
     out.append(('choice-group-in-two-runs', d6, [(0, ['obj', 0, [['none'], ['text', 'x'], ['int', 3]]])]))
+    # known finding: a named simple type with an exclusive bound, customised a second time
+    d7 = {'tns': 'urn:tns', 'simples': [{'ns': 'urn:s', 'name': 'S0', 'leaf': {'base': 'integer', 'facets': {'lt': ['int', 129]}}}],
+          'classes': [{'ns': 'urn:t', 'name': 'K0', 'parent': None, 'fields': [
+              fld('n', ['leaf', {'base': 'integer', 'facets': {'lt': ['int', 129], 'ge': ['int', 100]}, 'named': 0,
+                                 'own': {'ge': ['int', 100]}, 'plain': False}])]}]}
+    out.append(('inherited-exclusive-bound', d7, [(0, ['obj', 0, [['int', 128]]])]))
     return out
 
 
@@ -930,10 +1033,36 @@ def facet_corpus():
         ('date', {'ge': ['date', '2020-02-28']}), ('time', {'lt': ['time', '12:00:00']}),
         ('dateTime', {'le': ['dt', '2020-02-28T12:00:00+00:00']}),
     ]
+    singles.append(('uuid', {}))
     for i, (base, fa) in enumerate(singles):
         leaf = {'base': base, 'facets': fa}
         f = {'name': 'v', 'ty': ['leaf', leaf], 'min': 0, 'max': 3, 'nillable': False, 'kind': 'elem', 'choice': None, 'default': None}
         out.append((leaf, {'tns': 'urn:tns', 'classes': [{'ns': 'urn:t', 'name': 'K0', 'parent': None, 'fields': [f]}]}))
+    # two-step customisations: a named simple type of another namespace (first step: facets), and a
+    # member that customises it again (second step: more facets, or only min_occurs / nillable / default)
+    chains = [
+        ('string', {'min_len': 2, 'max_len': 4, 'pattern': '[A-Z][a-z]*'}, {}, None),
+        ('string', {'min_len': 2, 'max_len': 4, 'pattern': '[A-Z][a-z]*'}, {}, T('Abc')),
+        ('string', {'max_len': 10}, {'max_len': 4}, None),
+        ('string', {'pattern': '[a-z]+'}, {'min_len': 2}, None),
+        ('string', {'values': [T('a'), T('bc')]}, {}, None),
+        ('anyURI', {'max_len': 5}, {}, None),
+        ('integer', {'ge': I(3), 'le': I(9)}, {}, I(5)),
+        ('integer', {'ge': I(3)}, {'le': I(9)}, None),
+        ('unsignedByte', {'le': I(200)}, {'ge': I(100)}, None),
+        ('long', {'gt': I(-5)}, {}, None),
+        ('decimal', {'gt': Dc('0.5')}, {}, None),
+        ('decimal', {'ge': Dc('0.5')}, {'le': Dc('1E+2')}, None),
+        ('decimal', {'total_digits': 4, 'fraction_digits': 2}, {}, None),
+        ('double', {'ge': ['dbl', '0.5']}, {}, None),
+        ('date', {'ge': ['date', '2020-02-28']}, {}, None),
+    ]
+    for base, fa, own, dflt in chains:
+        leaf = {'base': base, 'facets': dict(fa, **own), 'named': 0, 'own': own, 'plain': False}
+        f = {'name': 'v', 'ty': ['leaf', leaf], 'min': 0, 'max': 1 if dflt is not None else 3, 'nillable': dflt is not None,
+             'kind': 'elem', 'choice': None, 'default': dflt}
+        out.append((leaf, {'tns': 'urn:tns', 'simples': [{'ns': 'urn:s', 'name': 'S0', 'leaf': {'base': base, 'facets': fa}}],
+                           'classes': [{'ns': 'urn:t', 'name': 'K0', 'parent': None, 'fields': [f]}]}))
     return out
 
 
@@ -942,11 +1071,15 @@ def oracle_facets(check, tier):
     rng = check.rng
     for leaf, desc in facet_corpus():
         W = World(rng, desc, 'xml')
-        if W.compile_error:
-            check.fail('C06|compile|facet|%s|%s' % (leaf['base'], ','.join(sorted(leaf['facets']))),
-                       'the schema Spyne generates does not compile: ' + W.compile_error, {'kind': 'compile', 'proto': 'xml', 'universe': desc})
-            continue
         tag = 'facet|%s|%s' % (leaf['base'], ','.join(sorted(leaf['facets'])) or 'none')
+        if 'named' in leaf:
+            tag = 'chain|%s|%s+%s' % (leaf['base'], ','.join(sorted(desc['simples'][0]['leaf']['facets'])),
+                                      ','.join(sorted(leaf['own'])) or 'none')
+        if W.compile_error:
+            check.fail('C06|compile|' + tag, 'the schema Spyne generates does not compile: ' + W.compile_error,
+                       {'kind': 'compile', 'proto': 'xml', 'universe': desc})
+            continue
+        multi = G.is_multi(desc['classes'][0]['fields'][0])
         for want in (True, False):
             seen = set()
             for _ in range(12):
@@ -955,11 +1088,69 @@ def oracle_facets(check, tier):
                     continue
                 seen.add(json.dumps(v))
                 if want and not dec_exponent(v):
-                    oracle_emitted(check, W, 0, 0, ['obj', 0, [['list', [v]]]], tag)
+                    oracle_emitted(check, W, 0, 0, ['obj', 0, [['list', [v]] if multi else v]], tag)
                 x = etree.Element('{urn:tns}x')
                 etree.SubElement(x, '{urn:t}v').text = G.canon_text(leaf['base'], v)
                 m, body = wrap('xml', desc['tns'], 'm0', x)
-                oracle_verdicts(check, W, 0, 0, body, [] if want else ['elem:%s:facet' % leaf['base']], tag)
+                notes = [] if want else ['elem:%s:facet' % leaf['base']]
+                if not want and 'total_digits' in leaf['facets'] and G.leaf_conforms(
+                        {'base': leaf['base'], 'facets': {k: z for k, z in leaf['facets'].items() if k not in ('total_digits', 'fraction_digits')}}, v):
+                    notes = ['schema-only:digits']
+                if not G.canon_text(leaf['base'], v) and desc['classes'][0]['fields'][0].get('default') is not None:
+                    notes = ['schema-only:default']             # XSD reads an empty element as the default value
+                oracle_verdicts(check, W, 0, 0, body, notes, tag)
+
+
+def oracle_xns(check, tier):
+    """(a) across namespaces: one universe per kind of reference from one namespace to another
+    (simple base type, member type, complex base, array item, attribute type ...), the reference
+    being the only one between the two namespaces; then the usual (b) and (c) on it"""
+    rng = check.rng
+    for rnd in range(1 if tier == 'quick' else 6):
+        for i, kind in enumerate(G.XNS_KINDS):
+            desc = G.gen_xns_universe(rng, kind)
+            oracle_universe(check, i + rnd, tier, desc=desc, per_class=2 if tier == 'quick' else 5, where='sole-reference|' + kind)
+
+
+def bytes_universe():
+    def fld(name, base, mn=0, mx=1, nillable=True, kind='elem', arr=False):
+        ty = ['leaf', {'base': base, 'facets': {}}]
+        return {'name': name, 'ty': ['arr', ty] if arr else ty, 'min': mn, 'max': mx, 'nillable': nillable, 'kind': kind,
+                'choice': None, 'default': None}
+    fields = []
+    for b, n in (('base64Binary', 'b'), ('hexBinary', 'h'), ('urlsafeBinary', 'u')):
+        fields += [fld(n, b, 1, 1, False), fld(n + 'm', b, 0, 3), fld(n + 'a', b, arr=True), fld(n + 'x', b, kind='attr')]
+    return {'tns': 'urn:tns', 'classes': [{'ns': 'urn:t', 'name': 'K0', 'parent': None, 'fields': fields}]}
+
+
+def oracle_bytes(check, tier):
+    """(b) for ByteArray values given as a sequence of chunks (non-final chunks whose length is not
+    a multiple of 3, empty chunks), under the base64, hex and urlsafe encodings, as element, repeated
+    element, array item and attribute, in requests and responses of the three protocols: the document
+    is schema-valid and its texts denote the concatenation of the chunks"""
+    rng = check.rng
+    desc = bytes_universe()
+
+    def chunks():
+        for _ in range(50):
+            v = G.gen_chunks(rng)
+            if G.denoted_bytes(v):
+                return v
+        return ['chunks', ['6162', '63'], 'tuple']
+    for proto in ('xml', 'soap11', 'soap12'):
+        W = World(rng, desc, proto)
+        if W.compile_error:
+            check.fail('C06|compile|bytes-universe', 'the schema Spyne generates does not compile: ' + W.compile_error,
+                       {'kind': 'compile', 'proto': proto, 'universe': desc})
+            continue
+        for _ in range(4 if tier == 'quick' else 25):
+            vals = []
+            for f in desc['classes'][0]['fields']:
+                if f['ty'][0] == 'arr' or G.is_multi(f):
+                    vals.append(['list', [chunks() for _ in range(rng.randint(1, 2))]])
+                else:
+                    vals.append(chunks())
+            oracle_emitted(check, W, 0, 0, ['obj', 0, vals], 'chunked-bytes')
 
 
 def oracle_emitted_tagged(check, W, cid, v, key):
@@ -979,7 +1170,17 @@ def run(check):
                   'rendered as real Spyne classes and as a Gallina universe; per universe: conformant values written by the real '
                   'client and server paths, and documents in declared order whose member counts, nil flags and leaf values are drawn '
                   'on and around every declared boundary; a fixed corpus (witnesses of repaired defects and known findings, one universe '
-                  'per (class, facet), a stream of malformed literals as element content and attribute values). A case is distinct by '
+                  'per (class, facet), a stream of malformed literals as element content and attribute values). Direct oracle only (no '
+                  'Gallina rendering): named simple types (type_name / __namespace__) and members that customise them a second time '
+                  '(with narrower facets, or with nothing but min_occurs / nillable / default), one universe per (class, first-step facets, '
+                  'second-step facets) on every run; one universe per kind of reference from one namespace to another (simple base type, '
+                  'named simple type with and without a second step, member class, repeated member class, complex base, Array of a class, '
+                  'Array of a named simple type with and without a second step, attribute type x3), the reference being the only one '
+                  'between the two namespaces and the referenced namespace reachable through the referring one only in 60% of them; '
+                  'every schema document must import each namespace it refers to (checked on the documents, besides lxml compiling them); '
+                  'ByteArray values given as tuples / lists of chunks (non-final chunk lengths not divisible by 3, empty chunks) under '
+                  'the base64, hex and urlsafe encodings, as element, repeated element, Array item and attribute, whose written text '
+                  'must strictly decode to the concatenation of the chunks; near misses of the Uuid pattern. A case is distinct by '
                   '(operation, protocol, document or value)')
     check.trusted = list(lib.COMMON_TRUSTED) + [
         'coq/C06/Xsd.v: the XSD validity relation for the published subset, written from XML Schema 1.0 parts 1 and 2 '
@@ -992,6 +1193,8 @@ def run(check):
         'harness/c06.py xs_key / spyne_key: the reference lexical mappings and the observed Spyne readers of the delegated leaf '
         'classes (Double, Float, Date, Time, DateTime, Duration, ByteArray, Uuid), tabulated per run for the section variables olex / ord',
         'lxml.etree.XMLSchema (libxml2) as the judge of "compiles" and of validity in the direct oracle',
+        'harness/c06.py strict_decode / import_gaps: the strict RFC 4648 / hex readers the written ByteArray texts are compared '
+        'with, and the reading of XSD part 1 section 4.2.3 (a QName reference needs an xs:import of its namespace in the same document)',
     ]
     check.assumptions = [
         'C06_emitted_valid_partial / C06_verdicts_agree assume resolves_b (schema_of U tns) U = true: that the published schema '
@@ -1014,6 +1217,10 @@ def run(check):
         'lexical leniency of the Python readers (C05 findings) is not C06\'s subject: generated documents carry canonical literals',
         'polymorphic output and xsi:type, sub_name / sub_ns, XmlData, AnyXml / AnyDict / File, headers and faults are outside the '
         'modelled universe; "the schema compiles" is observed with lxml, not proved',
+        'named simple types, second customisation steps on them, and the hex / urlsafe encodings of ByteArray are covered by the '
+        'direct oracle only: the Gallina universe publishes every restricted leaf as a one-step restriction of its primitive. A second '
+        'step never widens the first, never changes its pattern, and carries no facets when the first has gt / lt (known finding '
+        'C06|compile|inherited-exclusive-bound)',
     ]
     check.regen(['numtypes', 'xsdemit'])
     check.check_sources()
@@ -1025,6 +1232,8 @@ def run(check):
             check.mismatch('build', log[-1500:])
     oracle_corpus(check, tier)
     oracle_facets(check, tier)
+    oracle_xns(check, tier)
+    oracle_bytes(check, tier)
     corr_leaf_stream(check, tier)
     corr_decimal_text(check, tier)
     for ui in range(8 if tier == 'quick' else 60):
@@ -1062,12 +1271,20 @@ def replay(check, path):
         lv, sv = verdict(W.app_l, req), verdict(W.app_s, req)
         print('  verdicts: lxml', lv, 'soft', sv)
         bad += (not ok) + (accepted(lv) != accepted(sv))
+        gap = denotation_gap(desc, cid, v, payload(W.proto, req))
+        if gap:
+            print('  no text of the request is the %s encoding of %r' % gap)
+            bad += 1
         ctx, calls, out = serve(W.app_n, req, ret=G.to_native(desc, W.classes, v))
         if calls:
             ok, msg = W.lxml_ok(payload(W.proto, out))
             print('response:', out.decode('utf8', 'replace'))
             print('  lxml valid:', ok, msg or '')
             bad += (not ok)
+            gap = denotation_gap(desc, cid, v, payload(W.proto, out))
+            if gap:
+                print('  no text of the response is the %s encoding of %r' % gap)
+                bad += 1
     elif rp['kind'] == 'verdict':
         body = rp['doc'].encode('utf8')
         lv, sv = verdict(W.app_l, body), verdict(W.app_s, body)
